@@ -321,6 +321,17 @@ Theorem C09_namer_seeded_refuted :
 Proof. exact namer_seeded_refuted. Qed.
 Print Assumptions C09_namer_seeded_refuted.
 
+(* "each address once": slices.Compact de-duplicates only what a sort has made adjacent *)
+Theorem C09_compact_after_sort_deterministic :
+  forall l1 l2 : list string, Permutation l1 l2 -> compact (isort (fun a => a) l1) = compact (isort (fun a => a) l2).
+Proof. exact compact_after_sort_deterministic. Qed.
+Print Assumptions C09_compact_after_sort_deterministic.
+
+Theorem C09_compact_unsorted_refuted :
+  exists l1 l2, Permutation l1 l2 /\ isort (fun a => a) (compact l1) <> isort (fun a => a) (compact l2).
+Proof. exact compact_unsorted_refuted. Qed.
+Print Assumptions C09_compact_unsorted_refuted.
+
 (* ---------------------------------------------------------------- the hypotheses are met / concrete witnesses *)
 
 Definition secret3 : smap string := of_list [("client-b", "k2"); ("client-a", "k1"); ("client-c", "k3")].
